@@ -86,3 +86,12 @@ fn(R + "_checkin_failed", cls="CRecord", props=["C26"], types=dict(T, err="v"), 
    # even when the check-in itself fails, no connection stays in the record
    exc_ensures={"Exception": [f"{C} is None", f"implies({OC} is not None, {OC}.closed)"]},
    modifies=["self.dbapi_connection", f"{C}.closed", "contents(self.finalize_callback)", "self._soft_invalidate_time", "self.fairy_ref", "self.__pool.returned"])
+
+# construction: a record either comes into being with a fresh open connection, or (creator failed) not at all
+_CL["CRecord"].methods["__init__"] = R + "__init__"
+fn(R + "__init__", cls="CRecord", props=["C26"], types=dict(T, connect="bool"), callees=dict(NOOP, deque="newdeque"), returns="none",
+   ensures=["self.__pool is pool", "self.fairy_ref is None", "len(self.finalize_callback) == 0 and fresh(self.finalize_callback)",
+            f"implies(connect, {C} is not None and fresh({C}) and not {C}.closed)", f"implies(not connect, {C} is None)"],
+   may_raise={"BaseException": "connect"},
+   exc_ensures={"BaseException": [f"{C} is None"]},
+   modifies=["self.fresh", "self.fairy_ref", "self.starttime", "self.dbapi_connection", "self.__pool", "self.finalize_callback"])
